@@ -86,7 +86,9 @@ def check_thin(rep, sc, threads, rng, idx, tier):
     import osyris
     nd = sc["m"]["nd"]
     den = sc["basis"]["den"]
-    lbox = [1.0, 4.0][idx % 2]
+    # the third box length is 1 pc in cm: coordinates are then rounded products (lattice coordinate x box length / 32),
+    # as the loader builds them from code units, and cells sharing a face are a few ulp apart or overlap
+    lbox = [1.0, 4.0, 3.0856775814913673e18][idx % 3]
     f = lbox / 32.0
     dg, vec = build_group(sc, lbox)
     if idx % 7 == 0:
@@ -144,6 +146,10 @@ def check_thin(rep, sc, threads, rng, idx, tier):
             q = call_map(dg, [dg.layer("density"), Layer(dg["density"] * 2.0), Layer(dg["density"] * 4.0 + osyris.Array(1.0, unit="g/cm**3"))],
                          dict(kw, resolution=dict(kw["resolution"]) if isinstance(kw["resolution"], dict) else kw["resolution"]))
             d0, d1, d2 = (np.ma.filled(np.ma.masked_invalid(l["data"]), np.nan) for l in q.layers)
+            # pixels whose sample point lies on a cell face may be written by two workers, entry by entry (MapKernel: a torn
+            # face pixel is reachable): the layers are compared where exactly one cell contains the point
+            inside = np.array([[len(table[j][i]) == 1 for i in range(nx)] for j in range(ny)])
+            d0, d1, d2 = (np.where(inside, x, np.nan) for x in (d0, d1, d2))
             ok = np.isfinite(d0)
             if not (np.allclose(d1[ok], 2.0 * d0[ok], rtol=1e-12) and np.allclose(d2[ok], 4.0 * d0[ok] + 1.0, rtol=1e-12) and np.array_equal(np.isfinite(d1), ok) and np.array_equal(np.isfinite(d2), ok)):
                 bad = np.argwhere(ok & ~(np.isclose(d1, 2.0 * d0) & np.isclose(d2, 4.0 * d0 + 1.0)))
